@@ -106,6 +106,43 @@ pub fn c01_gen_after(kinds: &[u8], turn: u8, optional: bool) {
     assert!(!pl2 || m2 >= 1, "C01 generator misses a move the rules allow in a position reached by make");
 }
 
+/// C01 (closure of the families): the validity predicate the position families assume - every castling right
+/// implies king and rook on their home squares, an e.p. square implies the just-made double push, one king
+/// per side, pawns off the back ranks, no square claimed by two bitboards - still holds after the real
+/// `make` of any emitted move.  This is the inductive step that makes "all positions reachable by any move
+/// sequence" follow from the one-step harnesses: a `make` that leaves a stale right or e.p. square behind
+/// would let the generator emit a castling or e.p. move the rules do not allow one move later.
+pub fn c01_inv(kinds: &[u8], turn: u8, optional: bool) {
+    let (pos, mut bb, q, mv) = observed(kinds, turn, optional);
+    family_covers!(kinds, &pos, q, true);
+    bb.make(mv);
+    #[cfg(not(kani))]
+    sym::note("after_make", crate::native_util::describe(&bb));
+    let w = &bb.white;
+    let b = &bb.black;
+    let bit = |x: u64, s: u32| (x >> s) & 1 == 1;
+    assert!(!w.king_side_castle || (bit(w.kings(), 60) && bit(w.rooks(), 63)), "C01 after make: white king-side right without king on e1 / rook on h1");
+    assert!(!w.queen_side_castle || (bit(w.kings(), 60) && bit(w.rooks(), 56)), "C01 after make: white queen-side right without king on e1 / rook on a1");
+    assert!(!b.king_side_castle || (bit(b.kings(), 4) && bit(b.rooks(), 7)), "C01 after make: black king-side right without king on e8 / rook on h8");
+    assert!(!b.queen_side_castle || (bit(b.kings(), 4) && bit(b.rooks(), 0)), "C01 after make: black queen-side right without king on e8 / rook on a8");
+    let occ = w.kings() | w.queens() | w.rooks() | w.bishops() | w.knights() | w.pawns() | b.kings() | b.queens() | b.rooks() | b.bishops() | b.knights() | b.pawns();
+    let ep = bb.en_passant_square_shift;
+    if ep != 0 {
+        // the side that just moved (`turn`) made a double push over `ep`
+        if turn == 0 {
+            assert!(ep >= 40 && ep < 48 && bit(w.pawns(), ep - 8) && !bit(occ, ep) && !bit(occ, ep + 8), "C01 after make: e.p. square not behind a white pawn that just made a double push");
+        } else {
+            assert!(ep >= 16 && ep < 24 && bit(b.pawns(), ep + 8) && !bit(occ, ep) && !bit(occ, ep - 8), "C01 after make: e.p. square not behind a black pawn that just made a double push");
+        }
+    }
+    assert!(bb.turn == 1 - turn as u32, "C01 after make: side to move not flipped");
+    assert!((w.pawns() | b.pawns()) & 0xff000000000000ff == 0, "C01 after make: pawn on a back rank");
+    let s = sym::sq();
+    assert!(layers_at(&bb, s) <= 1, "C01 after make: two pieces on one square");
+    // kings: one each, unless the move captured a king - impossible here because the side not to move is not in check
+    assert!(w.kings().count_ones() == 1 && b.kings().count_ones() == 1, "C01 after make: not exactly one king per side");
+}
+
 // ---- C02 -------------------------------------------------------------------------------------------
 
 /// C02: make(legal move) yields the successor the rules define, field by field.
